@@ -212,7 +212,7 @@ fn main() {
     {
         let prof = Profile::pair(thorough);
         profiles.insert("pair".into(), prof.describe());
-        let (nenv, nshape) = if thorough { (6, 6) } else { (3, 4) };
+        let (nenv, nshape) = if thorough { (5, 6) } else { (3, 4) };
         let pick: Vec<usize> = (0..36).filter(|i| i / 6 < nenv && i % 6 < nshape).collect();
         let stats = Mutex::new(Stats::default());
         let n = (pick.len() * pick.len()) as u64;
